@@ -110,10 +110,16 @@ func runC03swaps(c *rules.Ctx) {
 		c.OnlyWhen(fn, "cl.Keeper.swapCrossTickLogic", "eq(_, "+step+"#0)", "a tick is crossed only when the computed price equals the next initialised tick's price")
 	}
 	// ---- (e) totals
+	swapTotalRules(c)
+}
+
+func itoa(i int) string { return string(rune('0' + i)) }
+
+// swapTotalRules: integer totals of a swap (shared by C01 and C03).
+func swapTotalRules(c *rules.Ctx) {
+	const K = "x/concentrated-liquidity.Keeper."
 	c.Returns(K+"computeOutAmtGivenIn", 0, "has(with:AmountIn(_, sdkmath.LegacyDec.TruncateInt(sdkmath.LegacyDec.Ceil(_))))", "exact-in total: the amount charged is the ceiling of the consumed amount", "/in")
 	c.Returns(K+"computeOutAmtGivenIn", 0, "has(with:AmountOut(_, sdkmath.LegacyDec.TruncateInt(non(sdkmath.LegacyDec.Ceil(_)))))", "exact-in total: the amount paid out is truncated", "/out")
 	c.Returns(K+"computeInAmtGivenOut", 0, "has(with:AmountIn(_, sdkmath.LegacyDec.TruncateInt(sdkmath.LegacyDec.Ceil(_))))", "exact-out total: the amount charged is the ceiling of the calculated amount", "/in")
 	c.Returns(K+"computeInAmtGivenOut", 0, "has(with:AmountOut(_, sdkmath.LegacyDec.TruncateInt(non(sdkmath.LegacyDec.Ceil(_)))))", "exact-out total: the amount paid out is truncated", "/out")
 }
-
-func itoa(i int) string { return string(rune('0' + i)) }
